@@ -74,6 +74,8 @@ type c13Scn struct {
 	WarmFailAt int   `json:"warm_fail_at,omitempty"`
 	Sched      bool  `json:"sched,omitempty"`
 	Tape       []int `json:"tape,omitempty"`
+	// CLI: the scenario is a run of the real goawk binary (c13cli.go); every other field is unused
+	CLI *c13Cli `json:"cli,omitempty"`
 }
 
 type c13Entry struct {
@@ -203,6 +205,7 @@ func (c13Engine) Components() map[string]string {
 		"print/printf, output streams, close, fflush, system, closeAll, os/exec pipes and copier goroutines": "real",
 		"standard output/error": "stub (SimSink behind a real bufio.Writer or a flush-sink)", "files": "real files behind Config.OpenFile (SimFS, /dev/full fault)",
 		"child processes": "real processes running stub simsh, every step released by the simulator", "scheduler": "simulated (tape-driven release of child steps and deliveries)",
+		"goawk binary (goawk.go)": "real, CLI layer only (one scenario in twelve): a process with real /bin/sh children, standard output on a file, a pipe, /dev/full or a pipe without reader",
 	}
 }
 func (c13Engine) Count(tier string) int {
@@ -325,6 +328,9 @@ func c13GenSchedOps(r *core.Rand, depth int) []c13Op {
 }
 
 func (c13Engine) Gen(r *core.Rand, tier string, i int) any {
+	if i%12 == 5 {
+		return c13GenCli(r) // CLI layer: the real binary
+	}
 	sc := &c13Scn{}
 	kids := "none"
 	switch r.Intn(12) {
@@ -1111,6 +1117,9 @@ func c13Schedule(sc *c13Scn, srv *core.ChildServer, sink *core.SimSink, done cha
 
 func (e c13Engine) Run(scAny any, keep bool) (out core.Outcome) {
 	sc := scAny.(*c13Scn)
+	if sc.CLI != nil {
+		return c13RunCli(sc, keep)
+	}
 	src, ops := c13Source(sc)
 	runOne := func(failAt int) (*core.Failure, *c13Result) {
 		log := core.NewLog(keep)
@@ -1515,6 +1524,9 @@ func c13ShrinkOps(ops []c13Op) [][]c13Op {
 
 func (c13Engine) Shrink(scAny any) []any {
 	sc := scAny.(*c13Scn)
+	if sc.CLI != nil {
+		return c13ShrinkCli(sc)
+	}
 	var out []any
 	add := func(f func(c *c13Scn)) {
 		c := *sc
